@@ -312,6 +312,7 @@ type c18Pic struct {
 	dec, grp         string
 	zero             rune
 	opts             string // JSONata object literal or ""
+	intPos           []int  // digits to the right of each integer-part separator, left to right
 }
 
 func c18GenPicture(r *rng) c18Pic {
@@ -353,6 +354,39 @@ func c18GenPicture(r *rng) c18Pic {
 		if len(rs) >= 2 {
 			k := 1 + r.intn(len(rs)-1)
 			ip = string(rs[:k]) + p.grp + string(rs[k:])
+		}
+	case 2: // two or three separators at arbitrary places of a longer integer part (regular or not)
+		extra := 3 + r.intn(8)
+		ip = strings.Repeat("#", extra) + ip
+		optInt += extra
+		rs := []rune(ip)
+		cuts := map[int]bool{}
+		for len(cuts) < 2+r.intn(2) && len(cuts) < len(rs)-1 {
+			cuts[1+r.intn(len(rs)-1)] = true
+		}
+		var out []rune
+		for i := range rs {
+			if cuts[i] {
+				out = append(out, []rune(p.grp)...)
+			}
+			out = append(out, rs[i])
+		}
+		ip = string(out)
+	}
+	// grouping positions of the integer part: digits to the right of each separator
+	{
+		rs := []rune(ip)
+		g := []rune(p.grp)[0]
+		for i, c := range rs {
+			if c == g {
+				n := 0
+				for _, d := range rs[i+1:] {
+					if d != g {
+						n++
+					}
+				}
+				p.intPos = append(p.intPos, n)
+			}
 		}
 	}
 	fp := strings.Repeat(z, manFrac) + strings.Repeat("#", optFrac)
@@ -456,6 +490,49 @@ func c18ReadBack(out string, x float64, p c18Pic) string {
 	if strings.HasPrefix(body, grp) || strings.HasSuffix(body, grp) || strings.Contains(body, grp+grp) ||
 		strings.Contains(body, grp+dec) || strings.Contains(body, dec+grp) {
 		return "misplaced grouping separator"
+	}
+	// integer-part separators stand at the picture's positions: every N digits when the positions are N, 2N, … kN
+	// (regular grouping, continued to the left), otherwise exactly at the listed positions
+	{
+		ipG := body
+		if i := strings.Index(body, dec); i >= 0 {
+			ipG = body[:i]
+		}
+		digits := strings.ReplaceAll(ipG, grp, "")
+		want := map[int]bool{}
+		if len(p.intPos) > 0 {
+			n := p.intPos[len(p.intPos)-1]
+			regular := n > 0
+			for k, pos := range p.intPos {
+				if pos != n*(len(p.intPos)-k) {
+					regular = false
+				}
+			}
+			if regular {
+				for k := n; k < len(digits); k += n {
+					want[k] = true
+				}
+			} else {
+				for _, pos := range p.intPos {
+					if pos > 0 && pos < len(digits) {
+						want[pos] = true
+					}
+				}
+			}
+		}
+		got := map[int]bool{}
+		seen := 0
+		rs := []rune(ipG)
+		for i := len(rs) - 1; i >= 0; i-- {
+			if string(rs[i]) == grp {
+				got[seen] = true
+			} else {
+				seen++
+			}
+		}
+		if fmt.Sprint(sortedInts(got)) != fmt.Sprint(sortedInts(want)) {
+			return fmt.Sprintf("integer-part separators after %v digits from the right, the picture asks for %v", sortedInts(got), sortedInts(want))
+		}
 	}
 	body = strings.ReplaceAll(body, grp, "")
 	ip, fp := body, ""
@@ -615,3 +692,16 @@ func decodeHexAtom(a string) string {
 }
 
 func hexDecode(s string) ([]byte, error) { return hex.DecodeString(s) }
+
+func sortedInts(m map[int]bool) []int {
+	var out []int
+	for k := range m {
+		out = append(out, k)
+	}
+	for i := 1; i < len(out); i++ {
+		for j := i; j > 0 && out[j] < out[j-1]; j-- {
+			out[j], out[j-1] = out[j-1], out[j]
+		}
+	}
+	return out
+}
